@@ -1346,11 +1346,13 @@ class Scalar(Qube):
             denom = self
             with warnings.catch_warnings():
                 warnings.filterwarnings('error')
+                denom_inv_mask = denom._mask_
                 try:
                     denom_inv_values = 1. / denom._values_
-                    denom_inv_mask = denom._mask_
                 except (ZeroDivisionError, RuntimeWarning):
-                    raise ValueError('divide by zero in Scalar.reciprocal()')
+                    denom_inv_values = self._func_of_unmasked(
+                                    (lambda v: 1. / v), 1.,
+                                    'divide by zero in Scalar.reciprocal()')
 
         else:
             denom = self.mask_where_eq(0, replace=1)
